@@ -365,6 +365,7 @@ func ruleSyncMapContents(c *Ctx, b *Body, pkg *ssa.Package, lab string, g *ssa.G
 		l.add("R-GLOBALS", lab, key, b.rel(g.Pos()), Discharged, "the map is never used", false)
 		return
 	}
+	b.cacheKeyCovers(l, lab, g, eff.fns)
 	// (1) loaded values
 	ld := newAliasFlow(b, eff.fns)
 	nLoad, nStore := 0, 0
